@@ -1,6 +1,6 @@
 """Property -> rules table. Each rule callable: (prog, tier, repo) -> [RuleResult]."""
 from .rules import traversal_instances as TI
-from .rules import gate, lookup_unwrap, heap, witness, incremental, optimizer, const_arith, shape, backend, printer_rules, comment_linear, enum_evidence, ssa_shared, lex_bounds, gc_rules, scope, eval_order, guard_table, relation
+from .rules import gate, lookup_unwrap, heap, witness, incremental, optimizer, const_arith, shape, backend, printer_rules, comment_linear, enum_evidence, ssa_shared, lex_bounds, gc_rules, scope, eval_order, guard_table, relation, type_walker
 
 PROPERTIES = {}
 
@@ -31,7 +31,7 @@ prop('C01', COMMON +
      'type\'s completed definition. EVAL-ORDER: on no path of the source->HIR lowering is a later child (arguments, right '
      'operand, match arms, branches) lowered before the earlier one (callee, left operand, scrutinee, condition). Does '
      'not decide that a visited operand is lowered correctly.',
-     [enum_evidence.run, eval_order.run, TI.make(['T-hir', 'T-mir_generics_specialization', 'T-mir_type_deduplication', 'T-mir_constant_param_elimination',
+     [enum_evidence.run, eval_order.run, type_walker.make(('samlang_compiler',), 3), TI.make(['T-hir', 'T-mir_generics_specialization', 'T-mir_type_deduplication', 'T-mir_constant_param_elimination',
                'T-lir_lowering', 'T-lune', 'T-wasm'])])
 
 prop('C02', COMMON +
@@ -65,9 +65,11 @@ prop('C06', COMMON +
      'assignability check on every path. SCOPE-IFLET-ELSE: the scope analysis visits the else-branch of an if-let at the scope depth of the whole '
      'expression (pattern bindings are not visible there). REENTRANT-RESTORE: a typing-context field overridden around a '
      're-entrant call (synthesis mode) is restored on every path. REL-FIELDS: every checker function relating two types '
-     '(same-type, assignable, meet, subtype) reads every identity field of the payload structs it compares from both sides.',
+     '(same-type, assignable, meet, subtype) reads every identity field of the payload structs it compares from both sides. TYPE-WALKER: every structural recursion '
+     'over the checker\'s Type (validation of instantiations, substitution, placeholder search) reads every child position '
+     '(type arguments, parameter types, return type).',
      [gate.run_gate, gate.run_errset, gate.run_assign_all_paths, lex_bounds.run_int_range, scope.run_iflet_else,
-      lambda prog, tier, repo: scope.run_reentrant_restore(prog, tier, repo, crates=('samlang_checker',)), relation.run, TI.make(['T-chk', 'T-ssa'])])
+      lambda prog, tier, repo: scope.run_reentrant_restore(prog, tier, repo, crates=('samlang_checker',)), relation.run, type_walker.make(('samlang_checker',), 6), TI.make(['T-chk', 'T-ssa'])])
 
 prop('C08', COMMON +
      'TRAVERSAL/SIBLING: the pretty-printer reads every expression, pattern, annotation, identifier and literal slot of '
@@ -77,7 +79,7 @@ prop('C08', COMMON +
      'parser\'s string-literal path has its inverse on the printer\'s. PAREN-ASSOC: every parenthesis decision for the '
      'right operand of a Binary node parenthesises at equal precedence (the parser is left-associative). Does not decide layout or the commutative '
      'right-operand shortcut.',
-     [printer_rules.run_prec_iso, printer_rules.run_literal_parity, printer_rules.run_paren_assoc, TI.make(['T-prt'])])
+     [printer_rules.run_prec_iso, printer_rules.run_literal_parity, printer_rules.run_paren_assoc, type_walker.make(('samlang_printer',), 1), TI.make(['T-prt'])])
 
 prop('C09', COMMON +
      'Clause "every comment is kept". COMMENT-LINEAR: linear-resource typestate dataflow over the parser MIR (Vec<Comment> '
